@@ -1,12 +1,13 @@
 """C03: HASH/HASHA/XOF/XOFA, fixed-length XOF, customised XOF vs the reference model."""
 from props._gen import run_matrix, replay_generic, diverse_specs, wide_specs, with_args, H
 
-RULE = ('hash, hasha, xof, xofa, xof/xofa init_fixed (declared lengths 0..40, 2^16, 2^29-1, 2^29, 2^29+1, SIZE_MAX) and init_custom (function names 0..40 bytes incl. NULL, >32 = hashed, bytes >= 0x80; customisation 0..40 and up to 1 KiB, NULL when empty): every message length 0..300 then boundary-biased lengths to 4 KiB (quick) / 64 KiB (thorough); output lengths 0..100 and up to 4 KiB; one-shot and init+absorb+squeeze compared with ref_cxof; distinct = (build, alg, in-class, out-class, history, declared-class, name-class, custom-class)')
+RULE = ('hash, hasha, xof, xofa, xof/xofa init_fixed (declared lengths 0..40, 2^16, 2^29-1, 2^29, 2^29+1, SIZE_MAX) and init_custom (function names 0..40 bytes incl. NULL, >32 = hashed, bytes >= 0x80; customisation 0..40 and up to 1 KiB, NULL when empty): every message length 0..300 then boundary-biased lengths to 4 KiB (quick) / 64 KiB (thorough); output lengths 0..100 and up to 4 KiB; one-shot and init+absorb+squeeze compared with ref_cxof; the C++ hash/hasha classes and xof/xofa templates <0,1,32,64> through every overload (pointer, C string, std::string incl. NUL bytes, byte_array); distinct = (build, alg, in-class, out-class, history, declared-class, name-class, custom-class)')
 ASSUME = ['reference hash/XOF validated on pinned NIST vectors; cXOF layout validated through the pinned KMAC/KMACA vectors', 'hashed long-name path follows doc/cxof.dox']
 
 
 def harnesses():
-    return [with_args(H['sym'], 'sym', ['--arg', 'C03'], 30000, 600000)]
+    # src/ascon/hash.h and xof.h (the C++ classes and fixed-length templates, every update/absorb overload) are anchors of C03 too
+    return [with_args(H['sym'], 'sym', ['--arg', 'C03'], 30000, 600000), with_args(H['cpp'], 'cpp', ['--arg', 'hashes'], 12000, 200000)]
 
 
 def run(ctx):
